@@ -93,7 +93,7 @@ func expectedImportanceRef(s *Snap, params M) (id string, applicable bool, ambig
 
 func between(x, a, b float64) bool {
 	lo, hi := math.Min(a, b), math.Max(a, b)
-	s := 1e-9 * math.Max(1, math.Max(math.Abs(lo), math.Abs(hi)))
+	s := 1e-9 * math.Max(math.Abs(lo), math.Abs(hi))
 	return x >= lo-s && x <= hi+s
 }
 
@@ -314,7 +314,7 @@ func judgeC18(c ReqCase) *Fail {
 			}
 			want := ratio*sv[0] + (1-ratio)*sv[1]
 			got := a.Values[alt.Id]
-			if math.Abs(got-want) > 1e-9*math.Max(1, math.Abs(want)) {
+			if math.Abs(got-want) > 1e-9*math.Max(math.Abs(sv[0]), math.Abs(sv[1])) { // relative to the components: no absolute floor
 				return failf("mixing-formula", "alternative %s: mixed value %v, ratio*c1+(1-ratio)*c2 = %v (ratio %v, c1 %v, c2 %v)", alt.Id, got, want, ratio, sv[0], sv[1])
 			}
 			if !between(got, sv[0], sv[1]) {
@@ -349,7 +349,7 @@ func genC18(t *rapid.T) ReqCase {
 		o := GenOpts{ValueMode: -1, Biases: []string{target}, MinBiases: 2, MaxBiases: 3, Probes: true}
 		return mkReqCase(genRequest(t, o))
 	}
-	return mkReqCase(stepRequest(t, GenOpts{ValueMode: -1, BigTiers: true}, target, 2))
+	return mkReqCase(stepRequest(t, GenOpts{ValueMode: -1, BigTiers: true, ValueScales: true}, target, 2))
 }
 
 // ---- component level: reference-criterion providers
